@@ -54,6 +54,8 @@ def model_value(m, kind, term):
         return r.as_long()
     if kind == 'bool':
         return z3.is_true(m.eval(term, model_completion=True))
+    if kind == 'bv':
+        return m.eval(term, model_completion=True).as_long()
     if kind == 'bytes':
         return [m.eval(t, model_completion=True).as_long() for t in term]
     raise ValueError(kind)
@@ -331,6 +333,11 @@ def sample_path(unit, loader, ctx, c, out, opts, k):
     # nudge away from the all-zero model
     rnd = random.Random(hash(unit.name) & 0xffff ^ k)
     for name, (kind, term) in list(c.inputs.items())[:12]:
+        if kind == 'bv':
+            s.push()
+            s.add(term == rnd.choice([0, 1, 255, 0xffffffff, rnd.randrange(1 << 32), rnd.randrange(1 << 16)]))
+            if s.check() != z3.sat:
+                s.pop()
         if kind == 'int':
             s.push()
             s.add(term == rnd.choice([0, 1, 2, 7, 63, 255, 256, 2047, 2048, 65535, 1 << 20, rnd.randrange(1 << 31)]))
